@@ -1,6 +1,6 @@
------------------------------ MODULE CLayoutJudge -----------------------------
-(* Batch judge: every item is one set of C declarations with the layouts GCC and miasm computed, and member accesses *)
-EXTENDS CLayout, Json, IOUtils
+----------------------------- MODULE MemTypesJudge -----------------------------
+(* Batch judge: every item is one type definition with a recorded history of writes through its memory views *)
+EXTENDS MemTypes, Json, IOUtils
 VARIABLES lo, hi
 Items == JsonDeserialize(IOEnv.ITEMS_FILE)
 Init == lo = 1 /\ hi = Len(Items)
@@ -8,5 +8,5 @@ Next == /\ lo < hi
         /\ LET mid == (lo + hi) \div 2 IN
            \/ (lo' = lo /\ hi' = mid)
            \/ (lo' = mid + 1 /\ hi' = hi)
-Report == lo < hi \/ PrintT("V " \o ToString(lo) \o " " \o LVerdict(Items[lo]))
+Report == lo < hi \/ PrintT("V " \o ToString(lo) \o " " \o MVerdict(Items[lo]))
 =============================================================================
